@@ -12,6 +12,8 @@ warnings.filterwarnings("ignore")
 def main():
     req = json.loads(sys.stdin.read())
     import desolver as de
+    from monitor import watchdog
+    watchdog.install(de)
     from desolver import integrators as I
     rng = np.random.default_rng(req.get("seed", 0))
     failures, cases, ratios = {}, 0, {}
@@ -120,7 +122,7 @@ def main():
                     signal.alarm(0)
                 except BaseException as e:
                     signal.alarm(0)
-                    hung = isinstance(e, TimeoutError) or isinstance(getattr(e, "__cause__", None), TimeoutError)
+                    hung = isinstance(e, (TimeoutError, watchdog.DidNotReturn)) or isinstance(getattr(e, "__cause__", None), (TimeoutError, watchdog.DidNotReturn))
                     fail("richardson-run-hangs" if hung else "raises", method="Richardson(%s,%d)" % (base.__name__, levels), span=span, cause=repr(getattr(e, "__cause__", e))[:90])
                     continue
                 err = float(np.max(np.abs(np.asarray(a.y[-1]) - np.array([np.sin(span[1]), np.cos(span[1])]))))
